@@ -47,7 +47,8 @@ def scan_loop_chars(t):
     for s in subterms(t):
         if isinstance(s, tuple) and s and s[0] == "call" and s[1] == "char::is_ascii_digit":
             out["digit"] = True
-        e = M(("call", "<&char as cmp::PartialEq>::eq", "_", ("char", "?c")), s) or M(("call", "<char as cmp::PartialEq>::eq", "_", ("char", "?c")), s)
+        e = M(("call", "<&char as cmp::PartialEq>::eq", "_", ("char", "?c")), s) or M(("call", "<char as cmp::PartialEq>::eq", "_", ("char", "?c")), s) \
+            or M(("op", "eq", "char", "_", ("char", "?c")), s) or M(("op", "eq", "char", ("char", "?c"), "_"), s)
         if e:
             if e["?c"] == ".":
                 out["dot"] = True
